@@ -123,6 +123,8 @@ class Dataset(AbstractDataset, dict, OpMixin, GetSetDelAttrMixin):
             raise TypeError("new dims must be iterable")
         if not len(newdims) == len(self.axes):
             raise ValueError("dimension mistmatch")
+        if len(set(newdims)) != len(newdims):
+            raise ValueError("duplicate dimension names: {}".format(newdims))
 
         # update every element's dimension
         for i, newname in enumerate(newdims):
@@ -517,6 +519,8 @@ class Dataset(AbstractDataset, dict, OpMixin, GetSetDelAttrMixin):
         a: ('x0',)
         b: ('x0', 'x1')
         """
+        if name is not None and name != self.axes[axis].name and name in self.dims:
+            raise ValueError("axis name already exist: {}".format(name))
         if not inplace: self = self.copy()
         self.axes[axis].set(values=values, inplace=True, name=name, **kwargs)
         if not inplace: return self
